@@ -1,7 +1,9 @@
 """Determinism of the simulator, on a larger sample than the per-check self-test:
 for every engine the same run indices are executed (a) with 1 worker, (b) with 16 workers, (c) with 16 workers under another
 PYTHONHASHSEED, each in its own interpreter; the aggregate digests (events + observation logs of all runs, in run-index order)
-must be identical.   usage: selftest/determinism.py [IDs...] [--runs N]"""
+must be identical.   usage: selftest/determinism.py [IDs...] [--runs N]
+(keep --runs small enough for the 1-worker pass to finish inside the wall cap of the quick tier: a capped pass covers fewer runs and
+its digest is not comparable - C17 and C19 have their own small defaults)"""
 import json, os, shutil, subprocess, sys, tempfile
 HERE = os.path.dirname(os.path.abspath(__file__)); VERIF = os.path.dirname(HERE); sys.path.insert(0, VERIF)
 from sims import _ENGINES
